@@ -432,3 +432,222 @@ Proof.
   rewrite <- fold_left_app. fold (doc_entries pre secs). rewrite (ientries_final b _ Hcm Hkeys). reflexivity.
 Qed.
 End WithInfo.
+
+(* ---------------------------------------------------------------- [read_sections] is the special case *)
+Definition embed (sec : rsec) : asec :=
+  match sec with
+  | RInfo h es => AInfo h (map IE es)
+  | RStyles h fs cols rows => AStyles h (BFormat fs cols :: map (fun p : list str * astyle => BStyle n_style (fst p) (snd p)) rows)
+  | REvents h fe cols rows =>
+    AEvents h (BFormat fe cols :: map (fun p : (list str * str) * aevent => BEvent n_dialogue (fst (fst p)) (snd (fst p)) (snd p)) rows)
+  end.
+Lemma flat_map_map {A B C} (f : B -> list C) (g : A -> B) l : flat_map f (map g l) = flat_map (fun x => f (g x)) l.
+Proof. induction l as [|x r IH]; [reflexivity|]. cbn [map flat_map]. rewrite IH. reflexivity. Qed.
+Lemma flat_map_single {A B} (f : A -> B) l : flat_map (fun x => [f x]) l = map f l.
+Proof. induction l as [|x r IH]; [reflexivity|]. cbn [map flat_map app]. rewrite IH. reflexivity. Qed.
+Lemma flat_map_nil {A B} (l : list A) : flat_map (fun _ => @nil B) l = [].
+Proof. induction l as [|x r IH]; [reflexivity|]. exact IH. Qed.
+Lemma n_style_not_format : n_style <> n_format. Proof. discriminate. Qed.
+Lemma n_dialogue_not_format : n_dialogue <> n_format. Proof. discriminate. Qed.
+
+Lemma embed_lines b sec : asec_lines b (embed sec) = rsec_lines b sec.
+Proof.
+  destruct sec as [h es|h fs cols rows|h fe cols rows]; cbn [embed asec_lines rsec_lines map bline_line].
+  - rewrite flat_map_map. reflexivity.
+  - rewrite map_map. reflexivity.
+  - rewrite map_map. reflexivity.
+Qed.
+Lemma embed_ok first sec : rsec_ok first sec -> asec_ok first (embed sec).
+Proof.
+  destruct sec as [h es|h fs cols rows|h fe cols rows]; cbn [embed asec_ok rsec_ok blines_ok].
+  - intros (Hh & Hes). split; [exact Hh|]. apply Forall_map. exact Hes.
+  - intros (Hh & Hf & Hcn & Hrows). split; [exact Hh|]. split; [exact Hf|]. rewrite overlay_nil.
+    induction rows as [|[cells st] r IH]; [exact I|]. inversion Hrows as [|? ? Hrow Hr]; subst. cbn [map blines_ok fst snd].
+    split; [reflexivity|]. split; [exact Hcn|]. split; [exact style_hdr_ok|]. split; [exact n_style_not_format|].
+    split; [exact Hrow | apply IH; exact Hr].
+  - intros (Hh & Hf & Hcn & Hrows). split; [exact Hh|]. split; [exact Hf|]. rewrite overlay_nil.
+    induction rows as [|[[init last] ev] r IH]; [exact I|]. inversion Hrows as [|? ? Hrow Hr]; subst. cbn [map blines_ok fst snd] in *.
+    split; [reflexivity|]. split; [exact Hcn|]. split; [exact dialogue_hdr_ok|]. split; [exact n_dialogue_not_format|].
+    split; [apply event_row_dialogue; exact Hrow | apply IH; exact Hr].
+Qed.
+Lemma embed_entries sec : asec_entries (embed sec) = entries_of sec.
+Proof.
+  destruct sec as [h es|h fs cols rows|h fe cols rows]; cbn [embed asec_entries entries_of flat_map bline_comments app].
+  - rewrite flat_map_map. cbn [aentry_entries]. rewrite flat_map_single. apply map_id.
+  - rewrite flat_map_map. cbn [bline_comments]. rewrite flat_map_nil. reflexivity.
+  - rewrite flat_map_map. cbn [bline_comments]. rewrite flat_map_nil. reflexivity.
+Qed.
+Lemma embed_styles sec : asec_styles (embed sec) = styles_of sec.
+Proof.
+  destruct sec as [h es|h fs cols rows|h fe cols rows]; cbn [embed asec_styles styles_of flat_map bline_styles app]; try reflexivity.
+  rewrite flat_map_map. cbn [bline_styles]. apply flat_map_single.
+Qed.
+Lemma embed_events sec : asec_events (embed sec) = events_of sec.
+Proof.
+  destruct sec as [h es|h fs cols rows|h fe cols rows]; cbn [embed asec_events events_of flat_map bline_events app]; try reflexivity.
+  rewrite flat_map_map. cbn [bline_events]. apply flat_map_single.
+Qed.
+Lemma flat_map_embed {C} (f : asec -> list C) (g : rsec -> list C) secs : (forall x, f (embed x) = g x) ->
+  flat_map f (map embed secs) = flat_map g secs.
+Proof. intros H. rewrite flat_map_map. apply flat_map_ext. exact H. Qed.
+
+(* [read_sections], derived from [read_sections_all]: no line before the first header, every section embedded *)
+Corollary read_sections_again b secs e : info_ok b ->
+  match secs with [] => True | x :: r => rsec_ok true x /\ Forall (rsec_ok false) r end ->
+  comments_of (flat_map entries_of secs) = an_comments b -> (forall f, In (IK f) (flat_map entries_of secs)) ->
+  let sts := flat_map styles_of secs in
+  read_ssa_lines (flat_map (rsec_lines b) secs) e =
+  if e then Err EIO
+  else Ok (mkAdoc (Some b) (styles_map sts) (map (fun ev => event_item ev (styles_map sts)) (flat_map events_of secs))).
+Proof.
+  intros Hb Hok Hcm Hkeys sts.
+  assert (Hl : flat_map (rsec_lines b) secs = doc_lines b [] (map embed secs)).
+  { unfold doc_lines. cbn [map app]. symmetry. apply flat_map_embed. apply embed_lines. }
+  assert (He : doc_entries [] (map embed secs) = flat_map entries_of secs).
+  { unfold doc_entries. cbn [flat_map map app]. apply flat_map_embed. exact embed_entries. }
+  rewrite Hl, (read_sections_all b [] (map embed secs) e Hb).
+  - destruct e; [reflexivity|]. rewrite (flat_map_embed asec_styles styles_of secs embed_styles).
+    rewrite (flat_map_embed asec_events events_of secs embed_events). fold sts. do 3 f_equal.
+    apply filter_all. apply forallb_forall. intros ev Hev. apply in_flat_map in Hev. destruct Hev as (sec & Hsec & Hev).
+    assert (Hsok : exists first, rsec_ok first sec).
+    { destruct secs as [|x r]; [destruct Hsec|]. destruct Hok as [Hx Hr]. destruct Hsec as [<-|Hsec]; [exists true; exact Hx|].
+      exists false. rewrite Forall_forall in Hr. apply Hr. exact Hsec. }
+    destruct Hsok as (first & Hsok). pose proof (rsec_ok_events first sec Hsok) as Hd. rewrite Forall_forall in Hd.
+    unfold is_dialogue. rewrite (Hd ev Hev). apply str_eqb_refl.
+  - unfold doc_ok. destruct secs as [|x r]; [exact I|]. destruct Hok as [Hx Hr]. cbn [map]. split; [apply embed_ok; exact Hx|].
+    apply Forall_map. revert Hr. apply Forall_impl. intros a. apply embed_ok.
+  - rewrite He. exact Hcm.
+  - rewrite He. exact Hkeys.
+Qed.
+
+(* ---------------------------------------------------------------- non-vacuity *)
+(* a comment and a skipped line before [Script Info]; unknown keys, an unintelligible line and a comment without a
+   space between the known keys; the events section before the styles section, with a second (shorter) Format line
+   that swaps the first two columns, a row in the new order and a Comment row; a [Fonts] section; a styles section
+   with a comment between two rows, the second under the header Foo, and an unintelligible line *)
+Open Scope string_scope.
+Definition z_info : ainfo :=
+  kset KWrapStyle (s2l "1") (kset KTitle (s2l "t: x")
+    (add_comment (s2l "between") (add_comment (s2l "d") (add_comment (s2l "c") (add_comment (s2l "top") ainfo0))))).
+Definition z_pre : list pline := [PC (s2l "; top") (s2l "top"); PS (s2l "some junk")].
+Definition z_cols2 := [s2l "Style"; s2l "End"].
+Definition z_init2 := [s2l "Main"; s2l "0:00:05.00"; s2l "0:00:04.00"; s2l "?"].
+Definition z_ev2 : aevent := mkAevent n_dialogue [] 5000000000%Z None None None None None [] 4000000000%Z (s2l "Main") (s2l "second, line").
+Definition z_ev3 : aevent := mkAevent (s2l "Comment") [] 5000000000%Z None None None None None [] 4000000000%Z (s2l "Main") (s2l "note").
+Definition z_cells2 := [s2l "0"; s2l "Alt"; s2l "x"; s2l ""; s2l "12"].
+Definition z_st2 : astyle := fset FFontSize (Some 12000%Z) (bset BBold (Some false) (set_name (s2l "Alt") astyle0)).
+Definition z_secs : list asec :=
+  [AInfo (s2l "[Script Info]")
+         [IE (IK (FK KTitle)); IU (s2l "ScaledBorderAndShadow: yes"); IE (IC (s2l "c")); IU (s2l "YCbCr Matrix: TV.601");
+          IU (s2l "Video Zoom:"); IU (s2l "Audio URI: a:b: c"); IJ (s2l "what is this"); IG (s2l ";d") (s2l "d");
+          IE (IK (FK KWrapStyle)); IE (IK (FK KCollisions)); IE (IK (FK KOriginalEditing)); IE (IK (FK KOriginalScript));
+          IE (IK (FK KOriginalTiming)); IE (IK (FK KOriginalTranslation)); IE (IK (FN KPlayDepth)); IE (IK (FN KPlayResX));
+          IE (IK (FN KPlayResY)); IE (IK (FK KScriptType)); IE (IK (FK KScriptUpdatedBy)); IE (IK (FK KSynchPoint));
+          IE (IK FT); IE (IK (FK KUpdateDetails))];
+   AEvents (s2l "[EVENTS]")
+           [BFormat (s2l "End,Style , Start,Nonsense,Text") x_ecols; BEvent n_dialogue x_init x_last x_ev;
+            BFormat (s2l "Style, End") z_cols2; BEvent n_dialogue z_init2 (s2l "second, line") z_ev2;
+            BEvent (s2l "Comment") z_init2 (s2l "note") z_ev3];
+   AUnknown (s2l "[Fonts]") [s2l "fontname: x.ttf"; s2l "; no comment here"];
+   AStyles (s2l "[v4+ styles]")
+           [BFormat (s2l "Bold ,Name,Whatever,  TertiaryColour, Fontsize") x_scols; BStyle n_style x_cells x_st;
+            BComment (s2l "; between") (s2l "between"); BStyle (s2l "Foo") z_cells2 z_st2; BJunk (s2l "no colon here")]].
+Close Scope string_scope.
+
+Ltac not_in := vm_compute; intros H; repeat (destruct H as [H|H]; [discriminate|]); exact H.
+Ltac in58 := vm_compute; tauto.
+Ltac kv_ok := split; [reflexivity | split; [discriminate | split; [discriminate | in58]]].
+Ltac unk := split; [kv_ok | not_in].
+Definition z_ecols2 : list str := Eval vm_compute in overlay z_cols2 x_ecols.
+Example z_event_row2 : event_row_h n_dialogue z_ecols2 z_init2 (s2l "second, line") z_ev2.
+Proof.
+  unfold event_row_h. split.
+  { repeat constructor; not_in. }
+  split. { unfold z_ecols2, z_init2. cbn [app]. repeat (apply Forall2_cons || apply Forall2_nil); vm_compute; first [reflexivity | exact I]. }
+  split; [reflexivity|]. split.
+  { intros a Ha. destruct a; try reflexivity; exfalso; apply Ha; unfold in_ecols.
+    - exists (s2l "End"). split; [vm_compute; tauto | reflexivity].
+    - exists (s2l "Start"). split; [vm_compute; tauto | reflexivity].
+    - exists (s2l "Style"). split; [vm_compute; tauto | reflexivity].
+    - exists (s2l "Text"). split; [vm_compute; tauto | reflexivity]. }
+  split; [discriminate | reflexivity].
+Qed.
+Example z_event_row3 : event_row_h (s2l "Comment") z_ecols2 z_init2 (s2l "note") z_ev3.
+Proof.
+  unfold event_row_h. split.
+  { repeat constructor; not_in. }
+  split. { unfold z_ecols2, z_init2. cbn [app]. repeat (apply Forall2_cons || apply Forall2_nil); vm_compute; first [reflexivity | exact I]. }
+  split; [reflexivity|]. split.
+  { intros a Ha. destruct a; try reflexivity; exfalso; apply Ha; unfold in_ecols.
+    - exists (s2l "End"). split; [vm_compute; tauto | reflexivity].
+    - exists (s2l "Start"). split; [vm_compute; tauto | reflexivity].
+    - exists (s2l "Style"). split; [vm_compute; tauto | reflexivity].
+    - exists (s2l "Text"). split; [vm_compute; tauto | reflexivity]. }
+  split; [discriminate | reflexivity].
+Qed.
+Example z_style_row2 : style_row x_scols z_cells2 z_st2.
+Proof.
+  unfold style_row. split; [discriminate|]. split.
+  { repeat constructor; not_in. }
+  split. { unfold x_scols, z_cells2. repeat (apply Forall2_cons || apply Forall2_nil); vm_compute; first [reflexivity | exact I | split; [discriminate | reflexivity] ]. }
+  split. { intros a Ha. destruct a as [y|y|y|y| |]; try destruct y; try (exfalso; apply Ha; reflexivity).
+           all: unfold in_cols.
+           - exists (s2l "Bold"). split; [vm_compute; tauto | reflexivity].
+           - exists (s2l "Fontsize"). split; [vm_compute; tauto | reflexivity].
+           - exists (s2l "Name"). split; [vm_compute; tauto | reflexivity]. }
+  split; [discriminate | reflexivity].
+Qed.
+Lemma hdr_ok_compute name : match name with c :: _ => plain_byte c = true /\ c <> 91 /\ c <> 59 | [] => False end ->
+  forallb (fun c => negb (c =? 58)) name = true -> trim_space name = name -> hdr_ok name.
+Proof.
+  intros H1 H2 H3. split; [exact H1|]. split; [|exact H3]. intros Hin. rewrite forallb_forall in H2. specialize (H2 _ Hin).
+  rewrite N.eqb_refl in H2. discriminate.
+Qed.
+
+Example z_read :
+  read_ssa_lines (doc_lines z_info z_pre z_secs) false =
+  Ok (mkAdoc (Some z_info) [(s2l "Main", Some x_st); (s2l "Alt", Some z_st2)]
+             [mkAitem 1500000000%Z 3000000000%Z (Some (s2l "Main")) (Some (mkAevattr [] None None None None None))
+                      [mkAline [] [mkArun (s2l "Hello, world") None]; mkAline [] [mkArun (s2l "x") (Some (s2l "{\i1}"))]];
+              mkAitem 4000000000%Z 5000000000%Z (Some (s2l "Main")) (Some (mkAevattr [] None None None None None))
+                      [mkAline [] [mkArun (s2l "second, line") None]]]).
+Proof.
+  rewrite (read_sections_all z_info z_pre z_secs false).
+  - reflexivity.
+  - unfold z_info, info_ok. split; [repeat constructor; reflexivity|]. split; [intros k; destruct k; split; reflexivity|].
+    split; [intros k v; destruct k; discriminate | discriminate].
+  - unfold doc_ok, z_pre, z_secs. split.
+    { exists (s2l " top"). split; reflexivity. }
+    split. { constructor; [|constructor]. split; [reflexivity | discriminate]. }
+    constructor; [|constructor; [|constructor; [|constructor; [|constructor]]]].
+    + split; [exists (s2l "Script Info"); split; reflexivity|].
+      repeat (apply Forall_cons || apply Forall_nil); cbn [aentry_ok ientry_ok]; try exact I; try (split; reflexivity).
+      * unk.
+      * unk.
+      * unk.
+      * unk.
+      * right. split; [reflexivity | split; [discriminate | left; not_in]].
+      * exists (s2l "d"). split; reflexivity.
+    + split; [exists (s2l "EVENTS"); split; reflexivity|]. cbn [blines_ok].
+      split; [split; [discriminate | split; reflexivity]|]. rewrite overlay_nil.
+      split; [reflexivity|]. split; [discriminate|]. split; [exact dialogue_hdr_ok|]. split; [exact n_dialogue_not_format|].
+      split; [apply event_row_dialogue; exact x_event_row|].
+      split; [split; [discriminate | split; reflexivity]|].
+      split; [reflexivity|]. split; [discriminate|]. split; [exact dialogue_hdr_ok|]. split; [exact n_dialogue_not_format|].
+      change (overlay z_cols2 x_ecols) with z_ecols2. split; [exact z_event_row2|].
+      split; [reflexivity|]. split; [discriminate|].
+      split; [apply hdr_ok_compute; [repeat split; discriminate | reflexivity | reflexivity]|]. split; [discriminate|].
+      split; [exact z_event_row3 | exact I].
+    + split; [exists (s2l "Fonts"); split; reflexivity|]. repeat constructor.
+    + split; [exists (s2l "v4+ styles"); split; reflexivity|]. cbn [blines_ok].
+      split; [split; [discriminate | split; reflexivity]|]. rewrite overlay_nil.
+      split; [reflexivity|]. split; [discriminate|]. split; [exact style_hdr_ok|]. split; [exact n_style_not_format|].
+      split; [exact x_style_row|].
+      split; [exists (s2l " between"); split; reflexivity|].
+      split; [reflexivity|]. split; [discriminate|].
+      split; [apply hdr_ok_compute; [repeat split; discriminate | reflexivity | reflexivity]|]. split; [discriminate|].
+      split; [exact z_style_row2|].
+      split; [|exact I]. right. split; [reflexivity | split; [discriminate | left; not_in]].
+  - reflexivity.
+  - intros f. destruct f as [k|k|]; try destruct k; vm_compute; tauto.
+Qed.
